@@ -93,6 +93,118 @@ theorem Loc.merge_exact {l l' : Loc} (hl : l.OK) {r : Ref} {srcs : List Commit}
           exact BertE.Git.merge_exact hl.wf htip hs hmm a ha
 
 
+/-! #### the same for `consecutive_merge` -/
+
+/-- upper bound of what branch `r` holds after some 2-way merges of commits among `cs` (successful or not):
+    among the commits that existed before, only what the old tip or one of `cs` held -/
+def Loc.Ub (l l' : Loc) (r : Ref) (cs : List Commit) : Prop :=
+  ∀ old new, l.refs.get r = some old → l'.refs.get r = some new →
+    ∀ x, x < l.g.size → l'.g.le x new = true → (l.g.le x old = true ∨ ∃ s ∈ cs, l.g.le x s = true)
+
+theorem Loc.merge1_ub {l : Loc} (hl : l.OK) {r : Ref} {c : Commit} {cs : List Commit} (hc : c < l.g.size)
+    (hmem : c ∈ cs) : Loc.Ub l (l.merge1 r c).1 r cs := by
+  intro old new ho hn x hx hle
+  rcases l.merge1_eq r c with ⟨l', hm, he⟩ | ⟨_, he⟩
+  · rw [he] at hn hle
+    have hs : ∀ s ∈ [c], s < l.g.size := by
+      intro s hs; simp only [List.mem_cons, List.not_mem_nil, or_false] at hs; subst hs; exact hc
+    obtain ⟨o', n', ho', hn', hex⟩ := Loc.merge_exact hl hs hm
+    rw [ho] at ho'; rw [hn] at hn'
+    simp only [Option.some.injEq] at ho' hn'
+    subst ho'; subst hn'
+    rcases (hex x hx).mp hle with h | ⟨s, hs', h⟩
+    · exact Or.inl h
+    · simp only [List.mem_cons, List.not_mem_nil, or_false] at hs'
+      subst hs'
+      exact Or.inr ⟨s, hmem, h⟩
+  · rw [he] at hn hle
+    rw [l.ask_g.2, ho] at hn
+    simp only [Option.some.injEq] at hn
+    subst hn
+    rw [l.ask_g.1] at hle
+    exact Or.inl hle
+
+theorem Loc.Ub.trans {l l1 l2 : Loc} {r : Ref} {cs : List Commit} (h1 : Loc.Ub l l1 r cs) (h2 : Loc.Ub l1 l2 r cs)
+    (hst : Loc.Step l l1 r) (hcs : ∀ s ∈ cs, s < l.g.size) : Loc.Ub l l2 r cs := by
+  intro old new ho hn x hx hle
+  obtain ⟨o, n1, ho', hn1, _⟩ := hst.grow
+  rw [ho] at ho'; simp only [Option.some.injEq] at ho'; subst ho'
+  rcases h2 n1 new hn1 hn x (Nat.lt_of_lt_of_le hx hst.ext.1) hle with h | ⟨s, hs, h⟩
+  · exact h1 old n1 ho hn1 x hx h
+  · rw [hst.ext.2 x s (hcs s hs)] at h
+    exact Or.inr ⟨s, hs, h⟩
+
+theorem Loc.seq2_ub {l : Loc} (hl : l.OK) {r : Ref} {x y : Commit} {cs : List Commit}
+    (hcs : ∀ s ∈ cs, s < l.g.size) (hx : x ∈ cs) (hy : y ∈ cs) (hr : l.refs.has r = true) :
+    Loc.Ub l (l.seq2 r x y).1 r cs := by
+  have h1 := Loc.merge1_ub (r := r) hl (hcs x hx) hx
+  obtain ⟨hs1, _⟩ := Loc.merge1_step hl (hcs x hx) hr
+  unfold Loc.seq2
+  simp only
+  split
+  · exact h1.trans (Loc.merge1_ub hs1.ok (Nat.lt_of_lt_of_le (hcs y hy) hs1.ext.1) hy) hs1 hcs
+  · exact h1
+
+/-- exact content of the branch after `Loc.merge2`, for the commits that existed before: the intermediate merge
+    commits of `consecutive_merge` add nothing that existed -/
+theorem Loc.merge2_exact {l l' : Loc} (hl : l.OK) {r : Ref} {a b : Commit}
+    (hs : ∀ s ∈ [a, b], s < l.g.size) (hm2 : l.merge2 r a b = some l') :
+    ∃ old new, l.refs.get r = some old ∧ l'.refs.get r = some new ∧
+      ∀ x, x < l.g.size → (l'.g.le x new = true ↔ (l.g.le x old = true ∨ ∃ s ∈ [a, b], l.g.le x s = true)) := by
+  obtain ⟨hl', hext, _, old, new, ho, hn, hon, hsrc⟩ := Loc.merge2_spec hl hs hm2
+  have hub : Loc.Ub l l' r [a, b] := by
+    have ha : a ∈ [a, b] := List.mem_cons_self
+    have hb : b ∈ [a, b] := List.mem_cons_of_mem _ List.mem_cons_self
+    unfold Loc.merge2 at hm2
+    by_cases hr : l.refs.has r = true
+    · simp only [hr, Bool.not_true, Bool.false_eq_true, if_false] at hm2
+      have u1 := Loc.seq2_ub hl hs ha hb hr
+      obtain ⟨st1, _⟩ := Loc.seq2_step hl (hs a ha) (hs b hb) hr
+      have hk1 := Loc.seq2_kept (l := l) a b hr
+      split at hm2
+      · simp only [Option.some.injEq] at hm2; subst hm2; exact u1
+      · have u2 := Loc.seq2_ub (l := (l.seq2 r a b).1) (r := r) (x := b) (y := a) (cs := [a, b]) st1.ok
+          (fun s hs' => Nat.lt_of_lt_of_le (hs s hs') st1.ext.1) hb ha hk1.1
+        split at hm2
+        · simp only [Option.some.injEq] at hm2; subst hm2
+          exact u1.trans u2 st1 hs
+        · cases hm2
+    · simp [hr] at hm2
+  refine ⟨old, new, ho, hn, fun x hx => ⟨hub old new ho hn x hx, ?_⟩⟩
+  rintro (h | ⟨s, hs', h⟩)
+  · exact le_trans hl'.wf (hext.le (hl.valid _ _ ho) h) hon
+  · exact le_trans hl'.wf (hext.le (hs s hs') h) (hsrc s hs')
+
+/-- exact content of the branch after `Loc.mergeN` (either strategy) -/
+theorem Loc.mergeN_exact {l l' : Loc} (hl : l.OK) {n : Bool} {r : Ref} {a b : Commit}
+    (hs : ∀ s ∈ [a, b], s < l.g.size) (hm : l.mergeN n r a b = some l') :
+    ∃ old new, l.refs.get r = some old ∧ l'.refs.get r = some new ∧
+      ∀ x, x < l.g.size → (l'.g.le x new = true ↔ (l.g.le x old = true ∨ ∃ s ∈ [a, b], l.g.le x s = true)) := by
+  cases n with
+  | false => exact Loc.merge_exact hl hs (by simpa [Loc.mergeN] using hm)
+  | true => exact Loc.merge2_exact hl hs (by simpa [Loc.mergeN] using hm)
+
+/-- exact content of the branch after `Loc.mergeD` (either strategy; the order of the sources is immaterial) -/
+theorem Loc.mergeD_exact {l l' : Loc} (hl : l.OK) {n : Bool} {r : Ref} {a b : Commit}
+    (hs : ∀ s ∈ [a, b], s < l.g.size) (hm : l.mergeD n r a b = some l') :
+    ∃ old new, l.refs.get r = some old ∧ l'.refs.get r = some new ∧
+      ∀ x, x < l.g.size → (l'.g.le x new = true ↔ (l.g.le x old = true ∨ ∃ s ∈ [a, b], l.g.le x s = true)) := by
+  cases n with
+  | false => exact Loc.merge_exact hl hs (by simpa [Loc.mergeD] using hm)
+  | true =>
+    have hs' : ∀ s ∈ [b, a], s < l.g.size := fun s h => hs s (by
+      simp only [List.mem_cons, List.not_mem_nil, or_false] at h ⊢; exact h.symm)
+    obtain ⟨o, nw, ho, hn, hex⟩ := Loc.merge2_exact hl hs' (by simpa [Loc.mergeD] using hm)
+    refine ⟨o, nw, ho, hn, fun x hx => ?_⟩
+    rw [hex x hx]
+    constructor
+    · rintro (h | ⟨s, h1, h2⟩)
+      · exact Or.inl h
+      · exact Or.inr ⟨s, by simp only [List.mem_cons, List.not_mem_nil, or_false] at h1 ⊢; exact h1.symm, h2⟩
+    · rintro (h | ⟨s, h1, h2⟩)
+      · exact Or.inl h
+      · exact Or.inr ⟨s, by simp only [List.mem_cons, List.not_mem_nil, or_false] at h1 ⊢; exact h1.symm, h2⟩
+
 /-! ### contents -/
 
 /-- `a` is on the integration branch of target `d` (as the clone sees it) -/
@@ -146,7 +258,7 @@ theorem updateW_content (pr : PrInfo) (N : Nat) : ∀ (ds : List Dest) {l l' : L
     | some t =>
       rw [ht] at hm
       simp only at hm
-      cases hm1 : l.merge (.w d pr.src) [t, prev] with
+      cases hm1 : l.mergeN pr.noOct (.w d pr.src) t prev with
       | none => rw [hm1] at hm; simp at hm
       | some l1 =>
         rw [hm1] at hm
@@ -157,8 +269,8 @@ theorem updateW_content (pr : PrInfo) (N : Nat) : ∀ (ds : List Dest) {l l' : L
           rcases hx with rfl | rfl
           · exact hl.valid _ _ ht
           · exact hp
-        obtain ⟨hl1, hext1, hsame1, _, _, _, _, _, _⟩ := Loc.merge_spec hl hs hm1
-        obtain ⟨wold, c, hwold, hc, hex⟩ := Loc.merge_exact hl hs hm1
+        obtain ⟨hl1, hext1, hsame1, _, _, _, _, _, _⟩ := Loc.mergeN_spec hl hs hm1
+        obtain ⟨wold, c, hwold, hc, hex⟩ := Loc.mergeN_exact hl hs hm1
         rw [hc] at hm
         simp only at hm
         have hclt : c < l1.g.size := hl1.valid _ _ hc
@@ -256,7 +368,7 @@ theorem mergeRest_content (pr : PrInfo) (N : Nat) : ∀ (ds : List Dest) {l l' :
     | some wc =>
       rw [hw] at hm
       simp only at hm
-      cases hm1 : l.merge (.dest d) [prevD, wc] with
+      cases hm1 : l.mergeD pr.noOct (.dest d) prevD wc with
       | none => rw [hm1] at hm; simp at hm
       | some l1 =>
         rw [hm1] at hm
@@ -267,8 +379,8 @@ theorem mergeRest_content (pr : PrInfo) (N : Nat) : ∀ (ds : List Dest) {l l' :
           rcases hx with rfl | rfl
           · exact hp
           · exact hl.valid _ _ hw
-        obtain ⟨hl1, hext1, hsame1, _, _, _, _, _, _⟩ := Loc.merge_spec hl hs hm1
-        obtain ⟨told, c, htold, hc, hex⟩ := Loc.merge_exact hl hs hm1
+        obtain ⟨hl1, hext1, hsame1, _, _, _, _, _, _⟩ := Loc.mergeD_spec hl hs hm1
+        obtain ⟨told, c, htold, hc, hex⟩ := Loc.mergeD_exact hl hs hm1
         rw [hc] at hm
         simp only at hm
         have hclt : c < l1.g.size := hl1.valid _ _ hc
@@ -347,7 +459,7 @@ theorem mergeRest_content (pr : PrInfo) (N : Nat) : ∀ (ds : List Dest) {l l' :
 
 theorem qOnly_only_q (m : RefMap) : ∀ r ∈ qOnly m, ∃ d, r = .q d := by
   intro r hr
-  unfold qOnly at hr
+  rw [mem_qOnly] at hr; unfold qRaw at hr
   simp only [List.mem_map, List.mem_filter] at hr
   obtain ⟨rc, ⟨_, hq⟩, rfl⟩ := hr
   cases hrc : rc.1 <;> simp [hrc] at hq
